@@ -109,3 +109,8 @@ check('C12', 'contracts', 'exploration', 'runtime relational monitor over one re
       'factor_worker / src_grad_worker / is_grad_worker relations from topology coordinates, broadcast flags, identical new_group sequences on all ranks, equal digests across hash seeds; '
       'the new_group order is additionally observed on the real front-end by the simdist runs of C03.',
       'DeepSpeed topology stand-in (stubs/deepspeed); group handles are recorder tuples.', 'DESIGN.md §3 C12')
+
+check('C11', 'simdist', 'exploration', 'differential oracle over real executions: sharded GPT-NeoX run on simulated dp x mp x pp ranks vs unsharded real run, shard by shard',
+      'Generated topologies (world <= 8, thorough <= 16), column/row/MLP stages, bias on/off, clipping active or not, bucketed or not, several steps, all scheduler policies: factors on the inverse workers '
+      'equal the unsharded layer\'s, every rank holds exactly its shard of the unsharded (clipped) gradient, data-parallel replicas are bitwise equal and replicated biases equal across model-parallel peers.',
+      'Megatron parallel layers and the DeepSpeed topology are stand-ins (DESIGN.md 2.4); pipeline stages are independent chains.', 'DESIGN.md §3 C11')
